@@ -18,14 +18,14 @@ from pvc import core
 
 MODULES = ['dassh.assembly']
 PROPERTY = 'C15'
+LEAN_LEMMAS = ['running_max_ge', 'running_max_attained']        # /verif/lean/Ghost.lean, checked in the thorough tier
 FUNCTIONS = ['dassh.assembly:Assembly._update_peak_coolant_temps', 'dassh.assembly:Assembly._update_peak_duct_temps',
              'dassh.assembly:Assembly._update_peak_pin_temps', 'dassh.assembly:Assembly.pin_temp_array']
 ASSUMPTIONS = ['temperatures are > 0 K so that the initial peak 0.0 is exceeded at the first plane',
                'the whole-sweep statement is the induction over steps of the proved fold step (maximum of a sequence = '
                'fold of binary max; first height of attainment because the update is strict)']
-NOT_DECIDED = ['text tables (CoolantTempTable, DuctTempTable, PeakPinTempTable): formatting and unit conversion of the '
-               'printed numbers', 'outlet / average temperatures in the summary tables']
-BOUNDED = []
+NOT_DECIDED = ['text tables (CoolantTempTable, PeakPinTempTable; DuctTempTable beyond the bounded run-time contract): '
+               'formatting and unit conversion of the printed numbers', 'outlet / average temperatures in the summary tables']
 
 
 class _Region:
@@ -176,3 +176,80 @@ def configs(tier):
         out += [(coolant, dict(n=5)), (duct, dict(n_region_ducts=2, n_peak_ducts=3, cells=3)),
                 (pins, dict(n_pin=3, n_keys=2))]
     return out
+
+
+# ---------------------------------------------------------------------------------------
+# bounded: the duct temperature table lists, for every duct it shows, the peak of THAT duct
+BOUNDED = ['runtime.duct_table_peak_is_of_listed_duct[*]: DuctTempTable on generated assemblies whose number of ducts '
+           'changes along the height']
+RUNTIME = {
+    'single_duct': dict(asms={'a1': dict(unrodded=[('upper', 0.7, 1.0, 'simple')])}),
+    'double_duct_only': dict(asms={'a1': dict(n_duct=2)}),
+    'double_duct_bundle_single_duct_top': dict(asms={'a1': dict(n_duct=2, unrodded=[('upper', 0.7, 1.0, 'simple')])}),
+    'double_duct_bundle_single_duct_bottom': dict(asms={'a1': dict(n_duct=2, unrodded=[('lower', 0.0, 0.3, '6node')])}),
+}
+
+
+def _table_case(name):
+    import os
+    import shutil
+    import sys
+    import tempfile
+    sys.path.insert(0, os.environ.get('DASSH_REPO', '/repo'))
+    from pvc import geninput as Gn
+    wd = tempfile.mkdtemp(prefix='c15_')
+    try:
+        import dassh
+        p = Gn.write_problem(wd, gap_model='none', **RUNTIME[name])
+        inp, r = Gn.build(p, sweep=True)
+        a = r.assemblies[0]
+        t = dassh.table.DuctTempTable()
+        t.make(r)
+        text = t._table if hasattr(t, '_table') else str(t)
+        rows = [ln.split() for ln in text.splitlines() if ln.strip() and ln.split()[0].isdigit()]
+        n_last = a.region[-1].temp['duct_mw'].shape[0]
+        peaks = a._peak['duct']
+        bad = []
+        if len(rows) != n_last:
+            bad.append(f'{len(rows)} rows for {n_last} ducts in the last region')
+        for d, row in enumerate(rows):
+            faces = [float(x) for x in row[-8:-2]]
+            pk, ht = float(row[-2]), float(row[-1])
+            want = peaks[len(peaks) - n_last + d]
+            if abs(pk - float(want[0])) > 0.006 or abs(ht - float(want[1])) > 0.006:
+                bad.append(f'row {d + 1}: prints peak {pk} K at {ht} m, the listed duct peaked at {float(want[0]):.2f} K, {float(want[1]):.2f} m')
+            if pk < max(faces) - 0.011:
+                bad.append(f'row {d + 1}: printed peak {pk} K is below the listed outlet face temperature {max(faces)} K')
+        return name, not bad, '; '.join(bad) if bad else f'{len(rows)} row(s) consistent'
+    except BaseException as e:
+        return name, False, f'{type(e).__name__}: {e}'
+    finally:
+        shutil.rmtree(wd, ignore_errors=True)
+
+
+def extra_checks(tier, seed):
+    import multiprocessing as mp
+    import time
+    t0 = time.time()
+    with mp.get_context('fork').Pool(4) as pool:
+        out = pool.map(_table_case, list(RUNTIME), chunksize=1)
+    secs = time.time() - t0
+    results = []
+    for name, ok, d in out:
+        results.append(dict(name=f'runtime.duct_table_peak_is_of_listed_duct[{name}]', status='proved' if ok else 'refuted',
+                            backend='bounded:run-time contract', seconds=secs / len(out), detail=d, sample=True,
+                            witness=dict(values=dict(case=name)),
+                            replay=dict(reproduced=not ok, point=dict(values=dict(case=name)), native=d)))
+    return [dict(name='duct temperature table (run-time contracts)', results=results,
+                 notes=['BOUNDED: runtime.duct_table_peak_is_of_listed_duct[*] on generated single-assembly problems'])]
+
+
+def replay(doc):
+    w = (doc.get('witness') or {}).get('values') or {}
+    if w.get('case') not in RUNTIME:
+        print('replay: symbolic obligation - re-run ./check C15')
+        return 0
+    name, ok, d = _table_case(w['case'])
+    print('replay:', name, d)
+    print('not reproduced' if ok else 'REPRODUCED')
+    return 0 if ok else 1
